@@ -1154,7 +1154,8 @@ class _Track:
             return "stop"
         if rv["k"] == "agg" and rv["kind"] == "adt" and rv.get("name") in ENUMS:
             if self.payload is not None:
-                if rv["variant"] != self.payload[0] or self.payload[1] not in rv["fields"]:
+                want = self.payload[0] if isinstance(self.payload[0], (set, frozenset, tuple)) else (self.payload[0],)
+                if rv["variant"] not in want or self.payload[1] not in rv["fields"]:
                     return "stop"
                 l = _plain(rv["ops"][rv["fields"].index(self.payload[1])])
                 if l is None:
@@ -1169,9 +1170,18 @@ class _Track:
     def step_call(self, t):
         if t["k"] != "call" or t["dest"]["l"] != self.local:
             return "skip"
+        c = t.get("callee")
+        if not t["dest"]["p"] and self.payload is not None and c in ("std::ops::Try::branch", "core::ops::Try::branch") and t["args"] \
+                and self.payload[1] == "0" and self.payload[0] in ("Continue", "Break") and not self.fs:
+            # the Continue payload of `x?` is the Ok / Some payload of x (Break: the Err payload)
+            l = _plain(t["args"][0])
+            if l is None:
+                return "stop"
+            self.payload = (("Ok", "Some") if self.payload[0] == "Continue" else ("Err",), "0")
+            self.local = l
+            return "cont"
         if t["dest"]["p"] or self.payload is not None:
             return "stop"
-        c = t.get("callee")
         if c in RESIDUAL:
             ty = t.get("dest_ty", "")
             if ty.startswith("std::result::Result<"):
